@@ -18,7 +18,56 @@ func init() { Registry["C17"] = checkC17 }
 
 var batchVariants = []string{"LF", "LF-noeol", "CRLF", "LF-blank", "CRLF-blank", "LF-whitespace"}
 
+// variantName: 0..5 the named line-ending variants; from 6 on the read-buffer variants (chunkVariant).
+func variantName(v int) string {
+	if v < len(batchVariants) {
+		return batchVariants[v]
+	}
+	crlf, d := chunkVariant(v)
+	return fmt.Sprintf("chunk(crlf=%v, line ends at 4096%+d, 32768%+d, 65536%+d)", crlf, d[0], d[1], d[2])
+}
+
+// chunkVariant: v = 6 + 2*combo + crlf; combo enumerates the offsets (-1, 0, +1)^3 of the first three line ends relative to
+// the read-buffer sizes 4096 (bufio), 32768 (the calculator's buffer) and 65536.
+func chunkVariant(v int) (bool, [3]int) {
+	w := v - 6
+	crlf := w%2 == 1
+	w /= 2
+	return crlf, [3]int{w%3 - 1, (w/3)%3 - 1, (w/9)%3 - 1}
+}
+
+const nChunkVariants = 54
+
+// writeChunkBatch: L non-empty lines, padded so that the line terminator of line 1, 2, 3 starts at byte offset
+// 4096+d0, 32768+d1, 65536+d2 (with CRLF the CR sits there: d = -1 splits the pair across the buffer boundary).
+func writeChunkBatch(path string, L int, crlf bool, d [3]int) {
+	var sb strings.Builder
+	eol := "\n"
+	if crlf {
+		eol = "\r\n"
+	}
+	targets := []int{4096 + d[0], 32768 + d[1], 65536 + d[2]}
+	for i := 1; i <= L; i++ {
+		head := fmt.Sprintf("verifline=%d pad=", i)
+		sb.WriteString(head)
+		if i <= len(targets) {
+			if n := targets[i-1] - sb.Len(); n > 0 {
+				sb.WriteString(strings.Repeat("x", n))
+			}
+		} else {
+			sb.WriteString("x")
+		}
+		sb.WriteString(eol)
+	}
+	os.WriteFile(path, []byte(sb.String()), 0644)
+}
+
 func writeBatch(path string, L, variant int) {
+	if variant >= 6 {
+		crlf, d := chunkVariant(variant)
+		writeChunkBatch(path, L, crlf, d)
+		return
+	}
 	var sb strings.Builder
 	eol := "\n"
 	if variant == 2 || variant == 4 {
@@ -104,10 +153,20 @@ func checkC17(c *core.Ctx) {
 				}
 			}
 		}
+		// batch files larger than the read buffers, line ends on / next to the buffer boundaries (all 54 variants x L, K small)
+		for v := 6; v < 6+nChunkVariants; v++ {
+			for _, lk := range [][2]int{{1, 1}, {2, 3}, {3, 2}, {4, 3}, {5, 2}, {7, 4}} {
+				cases = append(cases, pcase{lk[0], lk[1], v})
+			}
+		}
 		for L := 1; L <= simL; L++ {
 			for K := 1; K <= simK; K++ {
 				simCases = append(simCases, pcase{L, K, int((int64(L*K) + c.Seed) % 6)})
 			}
+		}
+		for j := 0; j < c.Pick(6, 54); j++ {
+			v := 6 + int((int64(j)*7+c.Seed)%nChunkVariants)
+			simCases = append(simCases, pcase{3 + j%3, 1 + j%3, v})
 		}
 	}
 	// design level (model of the calculator as transcribed; known H11 behaviour is selected by the constant)
@@ -211,7 +270,7 @@ func checkC17(c *core.Ctx) {
 	if violated != "" {
 		e := all[line-1]
 		rd := saveReplay(c, map[string]string{"case.json": fmt.Sprintf("%v %v %v\n", e["L"], e["K"], e["v"]), "event.json": jsonStr(e) + "\n", "tlc.out": run.Tail(40)})
-		c.Violate(fmt.Sprintf("%s violated for L=%v K=%v variant=%v: calculator printed %q (size %v), launched %v", violated, e["L"], e["K"], batchVariants[e["v"].(int)], e["raw"], e["size"], e["launched"]), rd)
+		c.Violate(fmt.Sprintf("%s violated for L=%v K=%v variant=%v: calculator printed %q (size %v), launched %v", violated, e["L"], e["K"], variantName(e["v"].(int)), e["raw"], e["size"], e["launched"]), rd)
 	} else if run.OK() {
 		c.TracesOK = len(all)
 	}
